@@ -254,7 +254,8 @@ class _ReusablePoolExecutor(ProcessPoolExecutor):
             ):
                 time.sleep(1e-3)
 
-            self._adjust_process_count()
+            with self._processes_management_lock:
+                self._adjust_process_count()
             processes = list(self._processes.values())
             while not all(p.is_alive() for p in processes):
                 time.sleep(1e-3)
